@@ -246,10 +246,11 @@ Print Assumptions multichan_exactly_once_in_order_partial.
    (2) hence no reachable state is stranded;
    and, as regression, (3) the one-list abstract protocol does strand with several senders and
    receivers (MChanAbs.abs_stranded_example).
-   Missing for the full statement: the refinement from MChan.M to MChanAbs.astep2.  Mutual
-   exclusion of the channel lock for this client is now proved (Properties_C11_excl.v); what is
-   left is "no stranded locker" for the channel lock inside this client and the simulation of
-   one locked attempt by one abstract step. *)
+   The FULL statement is proved in Properties_C11_ref.v (multichan_no_stranded, for arbitrary
+   programs, directly on the faithful model: the wake-credit invariant of MChanAbs.Inv2 carried
+   over to the concrete states on top of the ownership machine of MChanExclBase.v; no refinement
+   to MChanAbs is needed).  The abstract result below is kept as the readable protocol-level
+   argument and as the home of the one-list regression (abs_stranded_example). *)
 Theorem multichan_no_stranded_partial :
   (forall (size nfib : nat) (st0 st : MChanAbs.ast2),
      (0 < size)%nat -> MChanAbs.ainit2 st0 -> MChanAbs.areach2 size nfib st0 st ->
